@@ -4,7 +4,8 @@
 # Writes <dir>/validation.json. Scratch worktree: /tmp/wt/val (created on demand, removed by the caller).
 set -u
 D=$(readlink -f "$1")
-WT=/tmp/wt/val
+WT=${VAL_WT:-/tmp/wt/val}
+TAG=$(basename $WT)
 PY=/venv/bin/python
 if [ ! -d $WT ]; then
   git -C /repo worktree add --detach $WT HEAD >/dev/null 2>&1
@@ -13,8 +14,8 @@ fi
 cd $WT
 git checkout -q -- . 
 run_suite() { # $1 = out file of failed ids
-  PYTHONPATH=$WT/lib $PY -m pytest -q -p no:cacheprovider -n 16 --timeout=900 --continue-on-collection-errors -rfE 2>&1 | tee /tmp/wt/val_last.log | grep -E "^(FAILED|ERROR) " | sed 's/ - .*//' | sort -u > $1
-  tail -1 /tmp/wt/val_last.log
+  PYTHONPATH=$WT/lib $PY -m pytest -q -p no:cacheprovider -n 16 --timeout=900 --continue-on-collection-errors -rfE 2>&1 | tee /tmp/wt/${TAG}_last.log | grep -E "^(FAILED|ERROR) " | sed 's/ - .*//' | sort -u > $1
+  tail -1 /tmp/wt/${TAG}_last.log
 }
 if [ ! -f /tmp/wt/clean_failed.txt ]; then
   run_suite /tmp/wt/clean_failed.txt > /tmp/wt/clean_summary.txt
@@ -23,12 +24,12 @@ CLEAN_SUM=$(cat /tmp/wt/clean_summary.txt)
 applies=false; builds=true; demo_mut=-1; demo_clean=-1; suite_same=false
 if git apply --check "$D/patch.diff" 2>/dev/null; then applies=true; git apply "$D/patch.diff"; fi
 CH_C=$(git status --short | grep -c " src/")
-if [ "$CH_C" != "0" ]; then $PY setup.py build_ext --inplace --force -j 16 >/tmp/wt/val_build.log 2>&1 || builds=false; fi
+if [ "$CH_C" != "0" ]; then $PY setup.py build_ext --inplace --force -j 16 >/tmp/wt/${TAG}_build.log 2>&1 || builds=false; fi
 PYTHONPATH=$WT/lib timeout 300 $PY "$D/demo.py" > "$D/demo_mut.out" 2>&1; demo_mut=$?
-MUT_SUM=$(run_suite /tmp/wt/mut_failed.txt)
-if diff -q /tmp/wt/clean_failed.txt /tmp/wt/mut_failed.txt >/dev/null && [ "$(echo $MUT_SUM | grep -o '[0-9]* passed')" == "$(echo $CLEAN_SUM | grep -o '[0-9]* passed')" ]; then suite_same=true; fi
+MUT_SUM=$(run_suite /tmp/wt/${TAG}_mut_failed.txt)
+if diff -q /tmp/wt/clean_failed.txt /tmp/wt/${TAG}_mut_failed.txt >/dev/null && [ "$(echo $MUT_SUM | grep -o '[0-9]* passed')" == "$(echo $CLEAN_SUM | grep -o '[0-9]* passed')" ]; then suite_same=true; fi
 git checkout -q -- .
-if [ "$CH_C" != "0" ]; then $PY setup.py build_ext --inplace --force -j 16 >/tmp/wt/val_build.log 2>&1; fi
+if [ "$CH_C" != "0" ]; then $PY setup.py build_ext --inplace --force -j 16 >/tmp/wt/${TAG}_build.log 2>&1; fi
 PYTHONPATH=$WT/lib timeout 300 $PY "$D/demo.py" > "$D/demo_clean.out" 2>&1; demo_clean=$?
 cat > "$D/validation.json" <<EOT
 {"applies": $applies, "builds": $builds, "demo_exit_with_change": $demo_mut, "demo_exit_without_change": $demo_clean,
